@@ -49,6 +49,15 @@ DIRECTED = [
     ('wort und so weiter', {'repl': ['und so & a\\\\b \\t c']}),
     ('so dass', {'repl': ['so dass & x\\1y']}),
     ('', {}), ('\\', {}), ('$', {}), ('{', {}), ('\\begin', {}),
+    # short insertions that start with white space (multi-language mode)
+    ('\\usepackage{babel}Hello \\foreignlanguage{german}{  Welt} and more text here.',
+     {'multi': True, 'lang': 'en-GB'}),
+    ('\\usepackage{babel}Hello \\foreignlanguage{german}{\n\t Welt} and more text here.',
+     {'multi': True, 'lang': 'en-GB'}),
+    ('\\usepackage{babel}Hello\n\\begin{otherlanguage}{german}\n\n  Welt da\n\\end{otherlanguage}\nand more.',
+     {'multi': True, 'lang': 'en-GB'}),
+    ('\\usepackage{babel}Hello \\foreignlanguage{german}{   } and \\foreignlanguage{german}{ \n } more.',
+     {'multi': True, 'lang': 'en-GB'}),
 ]
 
 
